@@ -87,3 +87,52 @@ def Prim.literalValue (p : Prim) (value : List Char) : Option Int :=
   fromStrRadix p.isSigned p.bits radix (strip0x value)
 
 end Mink
+
+namespace Mink
+
+/-! ### per-language reading of an emitted integer literal (the text is carried verbatim:
+    pst.rs:296-315, mir.rs:617-625, the four `emit_const`) -/
+
+inductive Lang | c | cpp | rust | java
+  deriving DecidableEq, Repr, Inhabited
+
+/-- sign, radix prefix and digit string of an integer literal `-?0x H+ | -?D+` -/
+def splitLiteral (s : List Char) : Bool × Bool × List Char :=
+  let (neg, r) := match s with | '-' :: r => (true, r) | r => (false, r)
+  match r with
+  | '0' :: 'x' :: ds => (neg, true, ds)
+  | ds => (neg, false, ds)
+
+/-- the mathematical value of the IDL literal (decimal digits read in base ten, `0x` in
+    base sixteen, optional minus sign) -/
+def mathValue (s : List Char) : Option Int :=
+  let (neg, hex, ds) := splitLiteral s
+  match digitsVal (if hex then 16 else 10) ds with
+  | none => none
+  | some v => some (if neg then -(v : Int) else v)
+
+/-- how the target language reads the same text: C, C++ and Java read a decimal literal with
+    a leading `0` (and more digits) as octal; Rust reads it as decimal -/
+def leadingZero : List Char → Bool
+  | '0' :: _ :: _ => true
+  | _ => false
+
+def langRadix (l : Lang) (hex : Bool) (ds : List Char) : Nat :=
+  if hex then 16
+  else if l != .rust && leadingZero ds then 8
+  else 10
+
+def langValue (l : Lang) (s : List Char) : Option Int :=
+  let (neg, hex, ds) := splitLiteral s
+  match digitsVal (langRadix l hex ds) ds with
+  | none => none                       -- e.g. `09` is not a valid octal literal: compile error
+  | some v => some (if neg then -(v : Int) else v)
+
+def hasLeadingZero (s : List Char) : Bool :=
+  let (_, hex, ds) := splitLiteral s
+  !hex && leadingZero ds
+
+def Prim.lo (p : Prim) : Int := if p.isSigned then -(2 ^ (p.bits - 1) : Nat) else 0
+def Prim.hi (p : Prim) : Int := if p.isSigned then (2 ^ (p.bits - 1) : Nat) - 1 else (2 ^ p.bits : Nat) - 1
+
+end Mink
